@@ -98,6 +98,19 @@ def h_ctor_c07(d: Decl, props):
     return Harness(d, 'try_new#C07', props, body, clause='try_new(raw) == Err(e)  ==>  validate(sanitize(raw)) == Err(e)  (first violated validator in written order)')
 
 
+def h_accept_set(d: Decl, props):
+    """for a declaration that mixes built-in validators with `with`/`error` (normally rejected): should it
+    be accepted, a value is accepted exactly when EVERY written rule accepts it"""
+    S = concrete_self(d)
+    conds = ' && '.join(d.ref_accepts(v, 'v') for v in d.validators)
+    body = (sym_setup(d) + anyval(d) +
+            '        let v = raw;\n'
+            '        let every_rule = %s && %s(&v).is_ok();\n' % (conds, d.custom_validation.name) +
+            '        let accepted = %s::try_new(raw).is_ok();\n' % S +
+            '        assert!(accepted == every_rule, "accepted exactly when every written rule (built-in and custom) accepts");\n')
+    return Harness(d, 'try_new (accept set)', props, body, clause='try_new(x) is Ok <=> every written rule accepts x')
+
+
 def h_try_from(d: Decl, props):
     S = concrete_self(d)
     R = 'ref_' + d.id
@@ -965,7 +978,7 @@ def crate_text(decls, harnesses, extra_items='', features=()):
     return ''.join(out)
 
 
-def write_crate(tag, text, features=('serde', 'arbitrary'), deps=('serde', 'arbitrary')):
+def write_crate(tag, text, features=('serde', 'arbitrary'), deps=('serde', 'arbitrary'), release_like=False):
     crate = os.path.join(pipeline.WORK, 'kani_' + tag)
     os.makedirs(os.path.join(crate, 'src'), exist_ok=True)
     dep_lines = ''
@@ -976,8 +989,9 @@ def write_crate(tag, text, features=('serde', 'arbitrary'), deps=('serde', 'arbi
     with open(os.path.join(crate, 'Cargo.toml'), 'w') as f:
         f.write('[package]\nname = "nutype_verif_kani_%s"\nversion = "0.0.0"\nedition = "2021"\n\n[workspace]\n\n'
                 '[dependencies]\nnutype = { path = "%s/nutype", features = %s }\n%s\n'
-                '[lints.rust]\nunexpected_cfgs = { level = "allow", check-cfg = [\'cfg(kani)\'] }\n'
-                % (tag.lower(), pipeline.REPO, json.dumps(sorted(features)), dep_lines))
+                '[lints.rust]\nunexpected_cfgs = { level = "allow", check-cfg = [\'cfg(kani)\'] }\n%s'
+                % (tag.lower(), pipeline.REPO, json.dumps(sorted(features)), dep_lines,
+                   '\n[profile.dev]\ndebug-assertions = false\n' if release_like else ''))
     shutil.copy(os.path.join(pipeline.REPO, 'Cargo.lock'), os.path.join(crate, 'Cargo.lock'))
     with open(os.path.join(crate, 'src', 'lib.rs'), 'w') as f:
         f.write(text)
@@ -1053,13 +1067,13 @@ def parse_kani(output):
     return res
 
 
-def kani_run_harnesses(out, prop, tag, decls, harnesses, extra_items='', features=('serde', 'arbitrary'), jobs=14, extra_flags=()):
+def kani_run_harnesses(out, prop, tag, decls, harnesses, extra_items='', features=('serde', 'arbitrary'), jobs=14, extra_flags=(), release_like=False):
     if not harnesses:
         return
     t0 = time.time()
     for attempt in range(3):
         text = crate_text(decls, harnesses, extra_items)
-        crate = write_crate(tag, text, features=features)
+        crate = write_crate(tag, text, features=features, release_like=release_like)
         rc, output, wall, cmd = run_kani(crate, jobs=jobs, extra_flags=extra_flags)
         res = parse_kani(output)
         if res or 'error' not in output:
@@ -1211,6 +1225,10 @@ def float_decls(tier='quick'):
                 val += '.0'
             out.append(mk('flt_%s_%s_lit_%s' % (t, k, tag), 'float', t,
                           validators=[Validator(k, Bound(src=src, spec='', ref='(%s as %s)' % (val, t)))], derives=FLOAT_DERIVES))
+        out.append(mk('flt_%s_finite_const' % t, 'float', t, const_fn=True, validators=[fin], derives=FLOAT_DERIVES + ['Eq', 'Ord']))
+        out.append(mk('flt_%s_fin_wide_lit_const' % t, 'float', t, const_fn=True,
+                      validators=[Validator('greater_or_equal', Bound('%s::MIN' % t, '', '%s::MIN' % t)), fin, Validator('less_or_equal', Bound('%s::MAX' % t, '', '%s::MAX' % t))],
+                      derives=FLOAT_DERIVES))
         out.append(mk('flt_%s_fin_ge_le_lit_const' % t, 'float', t, const_fn=True,
                       validators=[fin, Validator('greater_or_equal', Bound('-1.0', '', '(-1.0 as %s)' % t)), Validator('less_or_equal', Bound('1.0', '', '(1.0 as %s)' % t))],
                       derives=FLOAT_DERIVES + ['Eq', 'Ord']))
@@ -1265,6 +1283,9 @@ def harnesses_for(prop, tier, seed):
         from .spellings import numeric_spellings
         decls = numeric_spellings(tier)
         for d in decls:
+            if d.note.startswith('mixed'):
+                hs.append(h_accept_set(d, [prop]))
+                continue
             hs.append(h_ctor(d, [prop]))
             if 'Default' in d.derives:
                 hs.append(h_default(d, [prop]))
@@ -1478,6 +1499,19 @@ def default_decls(tier='quick'):
             derives=['Debug', 'Default'], default=CJK, default_ref=CJK)
     ds.note = 'invalid-default'
     out.append(ds)
+    # other-family defaults (their Default impl is generated by any/gen/traits/mod.rs)
+    pm = Custom(name='pred_m', src='pred_m', spec='')
+    sm2 = Custom(name='san_m2', src='san_m2', spec='')
+    out.append(mk('def_any_valid', 'any', 'Meters', validators=[Validator('predicate', fn=pm)], aux=['Meters'], derives=['Debug', 'Default'],
+                  default='Meters(5)', default_ref='Meters(5)'))
+    da = mk('def_any_invalid', 'any', 'Meters', validators=[Validator('predicate', fn=pm)], aux=['Meters'], derives=['Debug', 'Default'],
+            default='Meters(7)', default_ref='Meters(7)')
+    da.note = 'invalid-default'
+    out.append(da)
+    da = mk('def_any_invalid_after_sanitize', 'any', 'Meters', sanitizers=[Sanitizer('with', sm2)], validators=[Validator('predicate', fn=pm)],
+            aux=['Meters'], derives=['Debug', 'Default'], default='Meters(0)', default_ref='Meters(0)')
+    da.note = 'invalid-default'
+    out.append(da)
     # `derive(Default)` without `default = ..` must be rejected; should it ever be accepted, the harness
     # requires default() == new(<Inner as Default>::default())
     sm = Custom(name='san_m2', src='san_m2', spec='')
@@ -1692,6 +1726,22 @@ def kani_part(out, prop, tier, seed):
     if hs:
         decls, hs = prefilter(out, prop, decls, hs)
         kani_run_harnesses(out, prop, prop, decls, hs, extra_items=extra)
+    if prop == 'C03' and hs:
+        # the same Default harnesses once more in a release-like build (debug assertions OFF): a guard that
+        # only exists as `debug_assert!` must not be what keeps an invalid default out
+        dh = [h for h in hs if h.what.startswith('Default::default')]
+        dd = []
+        for h in dh:
+            if h.decl not in dd:
+                dd.append(h.decl)
+        import copy
+        rel = []
+        for h in dh:
+            h2 = copy.copy(h)
+            h2.what = h.what + ' [release-like build: debug assertions off]'
+            h2.key = '%s::%s' % (h.decl.id, h2.what)
+            rel.append(h2)
+        kani_run_harnesses(out, prop, prop + 'r', dd, rel, extra_items=extra, release_like=True)
     if prop == 'C09':
         string_arbitrary_exploration(out, tier)
 
